@@ -21,7 +21,11 @@
                                      2^63 bytes (`DecodersTotal`: zlib inflate model, ASCII85, ASCIIHex, predictor
                                      glue - C06/C07 material, not discharged here).  Proof: Lemmas/LoaderNoPanic.lean.
     hybrid_hidden_gen0_witness       known finding #31 on the faithful model.
-  `_partial`: not closed by a theorem, decided by the correspondence run with the oracle `DocSpec.resolve`:
+  FOLLOW-UP (C03b): the end-to-end theorem for single-revision classic-table files (`load_defines_exactly_classic`,
+  `load_defines_exactly_classic_fwd`), the discharge of `ReadsAt` from C02's `spell_parse` and of the decoders'
+  no-panic clause are in Props/C03E2E.lean (this file cannot import them: their lemmas import this file).
+  `_partial` here and there - for the layouts not covered there (cross-reference streams, object streams, hybrid):
+  not closed by a theorem, decided by the correspondence run with the oracle `DocSpec.resolve`:
   the composition with the header / startxref / trailer scans and with the decoders of C13 (table, stream,
   /W, /Index, Flate + Up), the premise `ReadsAt` for every spelling (C02's spell_parse is itself partial),
   object streams, hybrid files, forward-referenced /Length (second pass).  The kernel-evaluated examples at
